@@ -437,6 +437,7 @@ func (k *Checker) trackLeadership(n *Node, pre, post *raft.VerifState, ctx *call
 		if !x.isLeader || x.leaderTerm != post.Term {
 			x.isLeader, x.leaderTerm, x.leaderSince = true, post.Term, n.ticks
 			x.heardTick = map[uint64]uint64{}
+			x.confVersions = nil
 			x.lastDisqTick = n.ticks
 			x.readRecv = map[string]int{}
 			x.hbResp = map[uint64]int{}
@@ -445,8 +446,21 @@ func (k *Checker) trackLeadership(n *Node, pre, post *raft.VerifState, ctx *call
 			x.heardTick[ctx.msg.GetFrom()] = n.ticks
 		}
 		switch ctx.what {
-		case "TransferLeader", "ApplyConfChange":
+		case "TransferLeader":
 			x.lastDisqTick = n.ticks
+		}
+		// configuration versions during this leadership
+		if len(x.confVersions) == 0 || !equalIDs(x.confVersions[len(x.confVersions)-1].voters, post.Voters) || !equalIDs(x.confVersions[len(x.confVersions)-1].outgoing, post.VotersOutgoing) {
+			x.confVersions = append(x.confVersions, confVersion{tick: n.ticks, voters: post.Voters, outgoing: post.VotersOutgoing})
+		}
+		// A peer that enters the leader's tracker starts out as recently heard
+		// from; a learner that is promoted does not.
+		if pre != nil && isLeader(pre) {
+			for _, id := range post.ProgressIDs {
+				if _, had := pre.Progress[id]; !had {
+					x.heardTick[id] = n.ticks
+				}
+			}
 		}
 		if ctx.msg != nil && ctx.msg.GetType() == pb.MsgTransferLeader {
 			x.lastDisqTick = n.ticks
@@ -530,7 +544,24 @@ func (k *Checker) checkPreVoteCheckQuorum(n *Node, pre, post *raft.VerifState, c
 				t, ok := x.heardTick[id]
 				return ok && t+w > n.ticks
 			}
-			if !jointMaj(post.Voters, post.VotersOutgoing, heard) {
+			// The check that must have fired lies within the last election
+			// timeout; the configuration it used is one of those in force during
+			// that time. Only if the peers heard from are no quorum under any of
+			// them is the verdict certain.
+			certain := true
+			for i, cv := range x.confVersions {
+				end := n.ticks + 1
+				if i+1 < len(x.confVersions) {
+					end = x.confVersions[i+1].tick
+				}
+				if end+uint64(n.cfg.ElectionTick) <= n.ticks {
+					continue // ended before the last election timeout began
+				}
+				if jointMaj(cv.voters, cv.outgoing, heard) {
+					certain = false
+				}
+			}
+			if certain && !jointMaj(post.Voters, post.VotersOutgoing, heard) {
 				k.report("C17", "cq.stepdown", n, fmt.Sprintf("still leader of term %d after %d ticks without hearing from a quorum (voters %v, outgoing %v, heard %v)", post.Term, w, post.Voters, post.VotersOutgoing, x.heardTick), "")
 				return
 			}
@@ -895,4 +926,21 @@ func (k *Checker) checkConfAgainstRef(n *Node, st *raft.VerifState, index uint64
 	if !want.Equal(got) {
 		k.report("C10", "mc.fold", n, fmt.Sprintf("%s: configuration as of index %d is %s, folding the committed changes gives %s", where, index, got, want), "mc.fold."+where)
 	}
+}
+
+type confVersion struct {
+	tick             uint64
+	voters, outgoing []uint64
+}
+
+func equalIDs(a, b []uint64) bool {
+	if len(a) != len(b) {
+		return false
+	}
+	for i := range a {
+		if a[i] != b[i] {
+			return false
+		}
+	}
+	return true
 }
